@@ -32,8 +32,10 @@ NOT_COVERED = [
     'the "gray zone" of dtx_off_no_tiny: for packets longer than 20 ms the code emits 1-2 byte PLC packets below 300 bytes/s '
     'or 2400 bit/s (src/opus_encoder.c:1267) although buffer and bitrate would allow three bytes; the theorem and the search '
     'use the code\'s own low-budget predicate as the meaning of "bitrate and buffer allow" (counted as gray_tiny)',
-    'the 2-byte "SILK busted its budget" packet (src/opus_encoder.c:2432-2441) and the length of normally coded packets are '
-    'DSP behaviour: with DTX off they are guarded by the witness search only',
+    'that the SILK payload fits the frame budget (branch ec_tell(&enc) > (max_data_bytes-1)*8, the 2-byte TOC+00 packet): an '
+    'explicit hypothesis (NoBust) of dtx_off_no_tiny / dtx_resume / dtx_onset, recorded per call as an oracle in the '
+    'correspondence run; the real encoder violates it on tight buffers with FEC (known finding C20-silk-bust-2byte), any other '
+    '<=2-byte packet with DTX off is reported as a violation by the witness search',
     'decoder side (durations, near-silence in the gap, normal audio afterwards): witness search on the implementation only; '
     'the packet-length <= 1 => PLC/CNG step is part of the C01/C09 decoder skeleton',
     'fixed-point build (silk/fixed/encode_frame_FIX.c has the same machine; complexity >= 10 threshold) is not built here']
@@ -85,6 +87,7 @@ def ties(ctx):
     first = ctx.seed % stride
     out.append(_tie(ctx, 'dtx-silence-grid', ['scen', 'silence-grid', str(first), '648', str(stride), '0', 'tie']))
     out.append(_tie(ctx, 'dtx-regime-switch', ['scen', 'regime-switch', '0', '16', '1', '0', 'tie']))
+    out.append(_tie(ctx, 'dtx-silk-bust', ['scen', 'silk-bust', '0', '1', '1', '0', 'tie']))
     return out
 
 
